@@ -89,6 +89,14 @@ def run_check(prop, tier):
         unit = units.load(module, uname)
         res = runner.explore(unit, props=(prop,), max_paths=unit.max_paths)
         summ = runner.summarize(res.obligations)
+        for name, v in summ.items():
+            if name.startswith("cover/") and v["status"] == "vacuous":
+                errors.append(f"{uname}/{name}: assumptions are contradictory on every path that reaches this point (vacuous proof)")
+            elif name.startswith("cover/") and v["status"] == "unknown":
+                undecided.append((f"{uname}/{name}", v))
+        ncov = sum(1 for k in summ if k.startswith("cover/"))
+        if ncov == 0 and not res.error:
+            errors.append(f"{uname}: no vacuity guard was reached")
         ev.add_unit(unit, res, summ)
         if res.error:
             errors.append(f"{uname}: {res.error}")
@@ -102,7 +110,7 @@ def run_check(prop, tier):
             errors.append(f"{uname}: zero obligations generated (vacuous run)")
         print(f"[{prop}] unit {uname}: {len(summ)} obligation sites, {len(res.obligations)} instances, "
               f"{sum(1 for v in summ.values() if v['status'] == 'proved')} proved, paths={res.paths}, {res.seconds:.1f}s"
-              + (f", ERROR {res.error}" if res.error else ""), flush=True)
+              + f", vacuity guards {ncov}" + (f", ERROR {res.error}" if res.error else ""), flush=True)
     # extra deductive items that are not path explorations (lemmas, table checks, template scans)
     for fn in spec.get("extra", []):
         items = fn(tier)
